@@ -78,7 +78,7 @@ def setup_native():
     return supp.scope
 
 
-def analyse(tpl, names_by_slot, undef_cls, real_text=None):
+def analyse(tpl, names_by_slot, undef_cls, real_text=None, order=None):
     """run the real extractor on the template tree with identifiers substituted; per read slot:
        dict(flow=bool, visible=bool, sites=set(slots), undef=bool, builtin=bool, scopes={site: scope id})"""
     from supp.util import Source
@@ -119,7 +119,7 @@ def analyse(tpl, names_by_slot, undef_cls, real_text=None):
         return ('module',)
 
     out = {}
-    for r in tpl.shape.reads():
+    for r in (tpl.shape.reads() if order is None else order):
         node = tpl.read_node[r]
         res = dict(flow=hasattr(node, 'flow'), visible=False, sites=set(), undef=False, builtin=False, scopes={})
         if res['flow']:
@@ -535,6 +535,27 @@ class TH(object):
                 return True
             return not bad
 
+    def run_order(self, names, o):
+        """C04 harness body: o selects a permutation of the reads (explicit branches keep it concrete)"""
+        from crosshair.tracers import NoTracing
+        self.reached = False
+        cls, builtins = self.pattern(names)
+        P = perms(self.shape.reads())
+        order = None
+        for i in range(len(P)):
+            if o == i:
+                order = P[i]
+                break
+        if order is None:
+            return True
+        with NoTracing():
+            if not compiles(self.shape, cls, builtins):
+                return True
+        naming = {s: names[self.shape.var_of[s]] for s in self.slots}
+        bad = order_problems(self.shape, lambda: family.Template(self.shape), naming, SUndef, order)
+        self.reached = True
+        return not bad
+
     def is_known(self, cls, builtins, bad):
         return all(known_problem(self.prop, self.shape, cls, b) for b in bad)
 
@@ -574,6 +595,48 @@ def known_problem(prop, shape, cls, problem):
                     and "('class'," in problem:
                 return e['what']
     return None
+
+
+def freeze(res):
+    return (res['flow'], res['visible'], tuple(sorted(res['sites'], key=str)), res['undef'], res['builtin'])
+
+
+def order_problems(shape, mk_template, naming, undef_cls, order, real_text=None):
+    """C04: results after querying the reads in `order` on one analysis state vs each read on a fresh one"""
+    shared = analyse(mk_template(), naming, undef_cls, real_text=real_text, order=order)
+    bad = []
+    for r in order:
+        fresh = analyse(mk_template(), naming, undef_cls, real_text=real_text, order=[r])
+        if freeze(fresh[r]) != freeze(shared[r]):
+            bad.append('read r%d: queried after %s it yields %s, on a fresh analysis %s'
+                       % (r, [x for x in order[:order.index(r)]], freeze(shared[r]), freeze(fresh[r])))
+    return bad
+
+
+def perms(reads):
+    import itertools
+    return [list(p) for p in itertools.permutations(reads)]
+
+
+def native_order_case(shape, cls, builtins, order):
+    import supp.name
+    naming = canon(shape, cls, builtins)
+    text = family.render(shape, naming)
+    bad = order_problems(shape, lambda: _RealTemplate(shape, naming), naming, supp.name.UndefinedName, order, real_text=text)
+    # the same through the public API: lint (walks all reads of one analysis in AST order) vs a fresh query
+    from supp.linter import lint
+    from supp.project import Project
+    res = lint(Project(['/nonexistent-root']), text, 'shape.py')
+    flagged = {(r[2], r[3]) for r in res if r[0] == 'E02'}
+    real = _RealTemplate(shape, naming)
+    for r in shape.reads():
+        node = real.read_node[r]
+        fresh = analyse(_RealTemplate(shape, naming), naming, supp.name.UndefinedName, real_text=text, order=[r])[r]
+        if ((node.lineno, node.col_offset) in flagged) != (fresh['flow'] and not fresh['visible']):
+            bad.append('read r%d: lint says %s, a fresh query says %s' % (
+                r, 'E02' if (node.lineno, node.col_offset) in flagged else 'defined',
+                'visible' if fresh['visible'] else 'not visible'))
+    return dict(text=text, problems=bad, naming=naming)
 
 
 def native_case(shape, cls, builtins, prop):
